@@ -19,10 +19,10 @@
   compatible keeps it, which edits can change the register counts, and that every linear extension (what
   `nx.topological_sort` returns) runs along every wire in wire order.
 -/
-import GraphiqModel.Proofs.Refine
+import GraphiqModel.Proofs.PrepOrder
 import GraphiqModel.Proofs.Topo
 namespace Graphiq.C12
-open Graphiq Graphiq.Dag Relation
+open Graphiq Graphiq.Dag Graphiq.Metrics Relation
 
 /-! ## 1. the edit API -/
 
@@ -316,6 +316,20 @@ theorem unwrap_is_splice_in {c : Dag} {P : Reg → List NodeId} (g : Good c P) {
       ∀ p ∈ w.unwrap.zipIdx,
         (NodeId.op (c.nodeId + 1 + p.2), p.1) ∈ ((c.unwrapOne (.op i) w.unwrap).1.removeOp (.op i)).1.nodes :=
   unwrapNode_refines g hw hk
+
+/-- **`unwrap_nodes`, whole edit, on the wires**: on a circuit of plain operations (no user labels; wrappers wrap base
+    gate classes) every wire afterwards carries, in order, the unwrapped operations of what it carried before
+    (`wireOps` = the operations held by the operation nodes of a wire, in wire order) -/
+theorem unwrap_nodes_is_flatMap_on_wires {c : Dag} {P : Reg → List NodeId} (g : Good c P) (hpl : AllPlain c) :
+    ∃ P', Good c.unwrapNodes.1 P' ∧ ∀ r, wireOps c.unwrapNodes.1 (P' r) = (wireOps c (P r)).flatMap Op.unwrap :=
+  unwrapNodes_wires g hpl
+
+/-- **`remove_identity`, whole edit, on the wires**: every wire afterwards carries, in order, the non-identity
+    operations it carried before -/
+theorem remove_identity_is_filter_on_wires {c : Dag} {P : Reg → List NodeId} (g : Good c P) (hpl : AllPlain c) :
+    ∃ P', Good c.removeIdentity.1 P' ∧
+      ∀ r, wireOps c.removeIdentity.1 (P' r) = (wireOps c (P r)).filter (fun o => !decide (o.kind = .identity)) :=
+  removeIdentity_wires g hpl
 
 /-! ## 8. non-vacuity: concrete operations, edges and a history satisfy the hypotheses -/
 
